@@ -18,8 +18,13 @@ def msec (d : Dur) : Dur := truncateDur d ms
 /-- both specified (non-zero on the wire) and different -/
 def timerDiffers (a b : Dur) : Bool := msec a != 0 && msec b != 0 && msec a != msec b
 
+/-- RFC 4861 §6.2.7: "Cur Hop Limit values (except for the unspecified value of zero)" — a router
+    that leaves the hop limit unspecified is consistent with any value (finding F-24: the pinned
+    tree compared the raw bytes and reported such a neighbour on every RA) -/
+def hopDiffers (a b : Nat) : Bool := a != 0 && b != 0 && a != b
+
 def header (a b : RA) : List Problem :=
-  (if a.hopLimit != b.hopLimit then [{ field := .hopLimit }] else []) ++
+  (if hopDiffers a.hopLimit b.hopLimit then [{ field := .hopLimit }] else []) ++
   (if a.managed != b.managed then [{ field := .managed }] else []) ++
   (if a.other != b.other then [{ field := .other }] else []) ++
   (if timerDiffers a.reachable b.reachable then [{ field := .reachable }] else []) ++
